@@ -115,7 +115,10 @@ def run_request(rp, known, arg, via_task=False):
         tmgr.cancel_tasks('task.%06d' % arg)
     if len(sent) != 1 or sent[0][0] != rpc.CONTROL_PUBSUB or sent[0][1].get('cmd') != 'cancel_tasks':
         return 'unexpected: %r' % (sent,)
-    return [int(u.split('.')[1]) for u in sent[0][1]['arg']['uids']]
+    # the receiving components walk the request with `for uid in uids` (scheduler, executor, raptor backlog): what that
+    # walk yields is what the request names (a bare string yields its characters: -1 stands for anything that is no uid)
+    import re
+    return [int(u.split('.')[1]) if re.match(r'^task\.\d{6}$', str(u)) else -1 for u in sent[0][1]['arg']['uids']]
 
 
 def request_cases(rp, ctx):
@@ -260,7 +263,16 @@ def replay(ctx, data):
     if i['kind'] == 'intake':
         res, unsched = run_intake(rp, i['op']['cl'], i['op']['uids'], i['op']['things'])
         print('observed:', res, 'unschedule published for', unsched)
-        return all(t in unsched for t in res['canceled'])
+        named = set(i['op']['cl']) | set(i['op']['uids'])
+        bad = []
+        for t in i['op']['things']:
+            if t in named and (t in res['worked'] or t not in res['canceled']): bad.append('named-task-processed-after-cancel')
+            if t not in named and (t not in res['worked'] or t in res['canceled']): bad.append('bystander-dropped-by-cancel')
+        if not all(t in unsched for t in res['canceled']): bad.append('cancel-at-executor-intake:resources-never-released')
+        print(bad)
+        # (the clause the input was recorded for, if it says so; every clause otherwise)
+        sig = str(data.get('signature') or '')
+        return sig not in bad if sig in ('named-task-processed-after-cancel', 'bystander-dropped-by-cancel') else not bad
     if i['kind'] == 'request':
         got = run_request(rp, [tuple(k) for k in i['known']], i['arg'], i['via_task'])
         named = set(i['arg'] if isinstance(i['arg'], list) else [i['arg']])
@@ -276,4 +288,4 @@ def replay(ctx, data):
         for o in out: print(o['events'], o['state']['waitpool'])
         print(bad)
         return not bad
-    return False
+    raise NotImplementedError('replay: unknown kind of input')
